@@ -1,7 +1,7 @@
 #!/bin/sh
-# usage: tools/regress_seeded.sh [ID ...] — applies every kept seeded change of the given properties (default: all) to /repo in turn,
-# runs the property's quick check and reports which are caught.  /repo is restored after each.
-cd /verif
+# usage: tools/regress_seeded.sh [ID ...] — applies every kept seeded change of the given properties (default: all) to the
+# repository under test in turn, runs the property's quick check and reports which are caught.  The tree is restored after each.
+cd "$(dirname "$(readlink -f "$0")")/.."
 IDS="${*:-C04 C07 C08 C11 C13 C17 C18 C19 C20}"
 miss=0
 for id in $IDS; do
